@@ -484,12 +484,6 @@ class Representation:
         else:
             adj_states = automaton.in_dict[state]
 
-        if len(adj_states) == 0 and not as_start:
-            if with_words:
-                return (empty_arr, [])
-            return empty_arr
-
-
         matrix_list = []
         accepted_words = []
         for adj_state, labels in adj_states.items():
